@@ -460,12 +460,38 @@ func c10Fixpoint(t c10TB, st *vstats.Collector, b []byte) (bool, []byte) {
 	return true, b1
 }
 
-// c10UnknownPreserved: every unknown odd record of the accepted input's TLV
-// tail must survive the re-encoding (as bytes of b1).
-func c10UnknownPreserved(t c10TB, st *vstats.Collector, m Message,
-	unknown []c10ref.Rec, b1 []byte) {
+// c10UnknownPreserved: every expected unknown odd record that the decoder
+// really was shown as a record of the message's TLV extension (the decoded
+// ExtraOpaqueData, or the whole body of a pure-TLV message, parses as a
+// canonical stream containing it) must survive the re-encoding b1. m is the
+// message decoded from b, untouched by Encode.
+func c10UnknownPreserved(t c10TB, st *vstats.Collector, m Message, b []byte,
+	expect []c10ref.Rec, b1 []byte) bool {
 
-	for _, r := range unknown {
+	var stream []byte
+	if _, pure := m.(PureTLVMessage); pure {
+		stream = b[2:]
+	} else if f, ok := c10ExtraField(m); ok {
+		stream = f.Bytes()
+	} else {
+		return false
+	}
+	seen, why, _ := c10ref.Parse(stream, true)
+	if why != c10ref.OK {
+		return false
+	}
+	checked := false
+	for _, r := range expect {
+		shown := false
+		for _, s := range seen {
+			if s.Type == r.Type && bytes.Equal(s.Val, r.Val) {
+				shown = true
+			}
+		}
+		if !shown {
+			continue
+		}
+		checked = true
 		enc := c10ref.AppendRecord(nil, r.Type, r.Val)
 		if bytes.Contains(b1, enc) {
 			continue
@@ -475,12 +501,14 @@ func c10UnknownPreserved(t c10TB, st *vstats.Collector, m Message,
 			st.Count("excluded_known", 1)
 			st.Count(fmt.Sprintf("drops-unknown:%T", m), 1)
 
-			return
+			return true
 		}
 		t.Fatalf("%T: unknown record (type %d, %d bytes) of the decoded "+
-			"message is missing from its re-encoding %x", m, r.Type,
-			len(r.Val), c10Head(b1))
+			"message is missing from its re-encoding\n b=%x\nb1=%x", m,
+			r.Type, len(r.Val), c10Head(b), c10Head(b1))
 	}
+
+	return checked
 }
 
 // c10RepacksExtension lists the messages whose Encode rebuilds ExtraData from
